@@ -148,7 +148,16 @@ func mathFrexp(L *LState) int {
 }
 
 func mathLdexp(L *LState) int {
-	L.Push(LNumber(math.Ldexp(float64(L.CheckNumber(1)), L.CheckInt(2))))
+	x, e := float64(L.CheckNumber(1)), L.CheckInt(2)
+	// math.Ldexp adds x's own exponent to e without an overflow check: next to the most negative
+	// int the sum wraps around and the result is +-Inf instead of 0. The exponents of float64 span
+	// less than 2^12, so beyond that the result is 0 or +-Inf already.
+	if e > 4096 {
+		e = 4096
+	} else if e < -4096 {
+		e = -4096
+	}
+	L.Push(LNumber(math.Ldexp(x, e)))
 	return 1
 }
 
